@@ -5,6 +5,7 @@ import (
 	"fmt"
 	"math/rand"
 	"sort"
+	"strconv"
 	"strings"
 
 	traceql_parser "github.com/metrico/qryn/reader/traceql/parser"
@@ -373,7 +374,7 @@ func genScript(r *rand.Rand) *rt.Script {
 		if r.Intn(100) >= emptyP {
 			sel.Expr = g.seq(1)
 		}
-		if r.Intn(100) < 28 && (sel.Expr != nil || g.weird) {
+		if r.Intn(100) < 34 && (sel.Expr != nil || g.weird) {
 			sel.Agg = g.agg()
 		}
 		s.Sels = append(s.Sels, sel)
@@ -811,6 +812,41 @@ func plant(r *rand.Rand, db *rt.DB, s *rt.Script, from, to int64) {
 						setAttr(sp, a.Name, pick(r, numVals))
 					}
 				}
+			}
+		}
+	}
+}
+
+// aimAggregates moves aggregate thresholds onto values the data actually produces (the aggregate of
+// one of the traces), so that the comparison separates traces and sum/avg/min/max differ in outcome.
+func aimAggregates(r *rand.Rand, db *rt.DB, s *rt.Script, from, to int64) {
+	for _, sel := range s.Sels {
+		a := sel.Agg
+		if a == nil || sel.Expr == nil || r.Intn(100) >= 60 {
+			continue
+		}
+		var vals []float64
+		for _, tr := range db.Traces {
+			if v, ok := rt.AggregateValue(sel, tr, from, to); ok {
+				vals = append(vals, v)
+			}
+		}
+		if len(vals) == 0 {
+			continue
+		}
+		v := pick(r, vals)
+		switch {
+		case a.Fn == "count":
+			if a.Unit == "" {
+				a.Num = strconv.FormatFloat(v, 'f', -1, 64)
+			}
+		case a.Scope == "" && a.Name == "duration":
+			if a.Unit != "" && a.Unit != "d" && v >= 0 && v < 9e15 {
+				a.Num, a.Unit = strconv.FormatInt(int64(v), 10), "ns"
+			}
+		default:
+			if a.Unit == "" {
+				a.Num = strconv.FormatFloat(v, 'f', -1, 64)
 			}
 		}
 	}
